@@ -229,6 +229,25 @@ func c17PairsFile(name, source, doc, typ string, rows []c17Row, val func(string)
 	return b.String()
 }
 
+// c17ByteFile writes a byte-keyed map: the key is the plain byte value (a `Nat`), the value a packed string
+// (a packed string cannot represent the one-byte string NUL).
+func c17ByteFile(name, source, doc string, rows []c17Row) string {
+	var b strings.Builder
+	b.WriteString(c17Header(name, source))
+	b.WriteString("/-- " + doc + " -/\n")
+	b.WriteString("def table : List (Nat × Nat) := [\n")
+	for i, r := range rows {
+		sep := ","
+		if i == len(rows)-1 {
+			sep = ""
+		}
+		fmt.Fprintf(&b, "  (%d, %s)%s  -- %s\n", r.k[0], leanPk(r.v), sep, strconv.QuoteToASCII(r.k))
+	}
+	b.WriteString("]\n")
+	b.WriteString(footer(name))
+	return b.String()
+}
+
 func c17NamesFile(name, source, doc string, keys []string) string {
 	var b strings.Builder
 	b.WriteString(c17Header(name, source))
@@ -514,9 +533,16 @@ func init() {
 		if err != nil {
 			return "", err
 		}
-		return c17PairsFile("TextRevHtml", "/repo/html/table.go (TextRevEntitiesMap)",
-			"`html.TextRevEntitiesMap`: byte (as a one-character list) ↦ the escape written for it in text",
-			"Nat × Nat", rows, leanPk), nil
+		return c17ByteFile("TextRevHtml", "/repo/html/table.go (TextRevEntitiesMap)",
+			"`html.TextRevEntitiesMap`: byte value ↦ the (packed) escape written in text when a reference decodes to that byte", rows), nil
+	})
+	gen("AttrRevHtml", func(r *Repo) (string, error) {
+		rows, err := c17ByteBytesMap(r, "html", "AttrRevEntitiesMap")
+		if err != nil {
+			return "", err
+		}
+		return c17ByteFile("AttrRevHtml", "/repo/html/table.go (AttrRevEntitiesMap)",
+			"`html.AttrRevEntitiesMap`: byte value ↦ the (packed) escape written in an attribute value when a reference decodes to that byte", rows), nil
 	})
 	gen("EntitiesXml", func(r *Repo) (string, error) {
 		rows, err := c17StrBytesMap(r, "xml", "EntitiesMap")
@@ -532,9 +558,16 @@ func init() {
 		if err != nil {
 			return "", err
 		}
-		return c17PairsFile("TextRevXml", "/repo/xml/table.go (TextRevEntitiesMap)",
-			"`xml.TextRevEntitiesMap`: byte (as a one-character list) ↦ the escape written for it in text",
-			"Nat × Nat", rows, leanPk), nil
+		return c17ByteFile("TextRevXml", "/repo/xml/table.go (TextRevEntitiesMap)",
+			"`xml.TextRevEntitiesMap`: byte value ↦ the (packed) escape written in character data when a reference decodes to that byte", rows), nil
+	})
+	gen("AttrRevXml", func(r *Repo) (string, error) {
+		rows, err := c17ByteBytesMap(r, "xml", "AttrRevEntitiesMap")
+		if err != nil {
+			return "", err
+		}
+		return c17ByteFile("AttrRevXml", "/repo/xml/table.go (AttrRevEntitiesMap)",
+			"`xml.AttrRevEntitiesMap`: byte value ↦ the (packed) escape written in an attribute value when a reference decodes to that byte", rows), nil
 	})
 	gen("TagTraits", func(r *Repo) (string, error) {
 		return c17Traits(r, "TagTraits", "tagMap", "normalTag", "TagTrait",
